@@ -38,6 +38,13 @@ CORPUS = [
     dict(title='Short', desc=['One %s two' % LONG], regs=[('BC', LONG)],
          instrs=[('XOR A', '', 1), ('LD (IX+5),%10101010', 'b', 1), ('JP 32768', 'A comment that exactly fills or overflows the available width depending on it', 1)],
          end=['e']),
+    # comment groups whose last instruction has the widest operation (wider than the instruction field)
+    dict(title='Groups', desc=[], regs=[],
+         instrs=[('XOR A', 'A group of three instructions of which the last is by far the widest, so the comment column is set by it', 3),
+                 ('INC A', None, 0), ('DEFM "abcdefghijklmnopqrstuvwxyz0123"', None, 0),
+                 ('LD A,1', 'Another group whose comment is long enough that it has to be wrapped over several lines of output', 2),
+                 ('DEFB 1,2,3,4,5,6,7,8,9,10,11,12,13', None, 0), ('RET', 'Done', 1)],
+         end=[]),
     # instruction comments with continuation lines, the first of which is a brace group closed on its continuation line
     dict(title='Continuation lines', desc=[], regs=[],
          instrs=[('DEFB 0', ('{First line of a group of one', 'which ends here}'), 1), ('DEFB 1', 'Second', 1),
@@ -269,6 +276,11 @@ B 32768,4,2 Two rows of two bytes each with a shared comment that has to be spre
 T 32772,3 text
 W 32775,2 {braces} inside a comment that is fairly long, long enough for at least two lines at width forty
 i 32777""", mem=[1, 2, 3, 4, 65, 66, 67, 0x34, 0x12]),
+    # a multi-instruction comment that itself ends with a closing brace (the group's closing brace is then written as ' }')
+    dict(ctl="""c 32768 Routine
+C 32768,2 Prepare the accumulator and the flags for the main loop then copy the result to the registers in {A and B}
+C 32770,1 done
+i 32771""", mem=[175, 71, 201]),
 ]
 
 
@@ -326,6 +338,7 @@ def check_skool(item):
         lw, lines = outv
         words, bad = [], []
         info = []
+        grp = None
         for ln in lines:
             if ln.startswith(';'):
                 t = ln[1:].strip()
@@ -343,12 +356,19 @@ def check_skool(item):
                 else:
                     comment = ''
                 comment = comment.strip()
-                cw = comment
-                if cw.startswith('{') and not cw.startswith('{braces}'):
-                    cw = cw[1:]
-                if cw.endswith('}') and not cw.endswith('{braces}'):
-                    cw = cw[:-1]
-                words += cw.split()
+                # a comment group is written as '{' ... '}' over the lines of its instructions: collect it until the braces balance
+                if grp is not None:
+                    grp.append(comment)
+                    joined = ' '.join(grp)
+                    if joined.count('{') <= joined.count('}'):
+                        words += joined[1:joined.rindex('}')].split()
+                        grp = None
+                elif comment.startswith('{') and comment.count('{') > comment.count('}'):
+                    grp = [comment]
+                elif comment.startswith('{ ') and comment.endswith('}'):
+                    words += comment[1:-1].split()         # protective braces round a comment that itself starts with a brace
+                else:
+                    words += comment.split()
                 info.append((ln, comment))
         want = skool_words(c['ctl'])
         if words != want:
